@@ -37,6 +37,18 @@ def partString : Part → String
   | .element _ st en ch => s!"E{st.bstart},{en.bstart}( " ++ treeString ch ++ ") "
 end
 
+/-- "a-b:pair[:R|P]" items of a `trace` reply -/
+def parseRegion (s : String) : Option (Nat × Nat × Bool) :=
+  match s.splitOn ":" with
+  | rng :: _ :: rest =>
+    match rng.splitOn "-" with
+    | [a, z] => some (a.toNat!, z.toNat!, rest != ["P"])
+    | _ => none
+  | _ => none
+
+def parseRegions (s : String) : List (Nat × Nat × Bool) :=
+  if s.isEmpty then [] else (s.splitOn " ").filterMap parseRegion
+
 def b2s (b : Bool) : String := if b then "true" else "false"
 
 def dispatch (extra : List String) (src ds de : List Char) (cfg : Cfg) (_args : List Int) : String :=
@@ -54,6 +66,14 @@ def dispatch (extra : List String) (src ds de : List Char) (cfg : Cfg) (_args : 
   | ["C14", out] =>
     let n := (extentsOfSource src ds de cfg).length
     s!"ok\t{b2s (c14Holds src ds de cfg (unhex out))} {n}"
+  | ["C15", items] =>
+    if wrapFreeB (bytesOf src) (parseSource src ds de) then
+      s!"ok\t{b2s (c15Holds src ds de cfg ((parseRegions items).map fun x => (x.1, x.2.1)))}"
+    else "ok\tvacuous"
+  | ["C17", items] =>
+    if wrapFreeB (bytesOf src) (parseSource src ds de) then
+      s!"ok\t{b2s (c17Holds src ds de cfg (parseRegions items))}"
+    else "ok\tvacuous"
   | _ => "ok\tno-spec"
 
 end Chiritori.Spec
